@@ -347,11 +347,14 @@ func decodeGen(r *rand.Rand, n int, tier string, emit func(Case)) {
 	i := 0
 	// structured sweeps over small corpus entries: every truncation, every count position
 	for _, f := range fmts {
+		// every format gets its share (the binary formats take six to eleven cases per position: left to itself the
+		// first one used up the whole allowance and the TWKB sweeps never reached an entry with a point array)
+		limit := i + n/8
 		for ci, src := range corp[f] {
 			if (ci%4 != 0 && !(f == "twkb" && ci < 3)) || len(src) > 120 {
 				continue
 			}
-			for o := 0; o < len(src) && i < n/3; o++ {
+			for o := 0; o < len(src) && i < limit; o++ {
 				put(f, src[:o])
 				i++
 				if (f == "wkb" || f == "twkb") && o+4 <= len(src) {
